@@ -37,6 +37,8 @@ def run_check(prop, tier, seed, audit=True):
         return 2
     try:
         ctx = Ctx(prop, tier, seed)
+        from rules.generic import run_generic
+        run_generic(ctx, prop)
         explanation, assumptions = mod.check(ctx)
         from .report import load_known, match_known
         known = load_known()
@@ -49,6 +51,17 @@ def run_check(prop, tier, seed, audit=True):
                 ctx.run.audit = dict(error='%s: %s' % (type(e).__name__, e))
         return ctx.run.finish(explanation, assumptions)
     except AnalysisError as e:
+        # a violation established before the analysis lost an anchor stands: the construct it names was decided on its own, and
+        # the lost anchor is most often part of the same change (an error must not mask a violation, as for floors)
+        try:
+            from .report import load_known, match_known
+            known = load_known()
+            if 'ctx' in locals() and any(match_known(known, f) is None for f in ctx.run.findings):
+                print('ANALYSIS-ERROR (after violations were found; reporting those) property=%s %s' % (prop, e))
+                ctx.run.note('analysis stopped early: %s' % e)
+                return ctx.run.finish('analysis stopped at an analysis error after the violations listed were established: %s' % e, [])
+        except Exception:
+            traceback.print_exc()
         print('ANALYSIS-ERROR property=%s %s' % (prop, e))
         return 2
     except Exception:
